@@ -406,6 +406,7 @@ pub proof fn lemma_bounds_up<K: Ord, V>(buf: Buf<K, V>, g0: G, root: u32, n: int
 {
     let p = buf[n].parent as int;
     let pn = g0.ng[n].pos;
+    lemma_sinv_to_skip(buf, g0, root, -1);
     reveal(sinv);
     assert(node_ok(buf, g0, root, n));
     assert(node_ok(buf, g0, root, p));
@@ -425,11 +426,11 @@ pub proof fn lemma_bounds_up<K: Ord, V>(buf: Buf<K, V>, g0: G, root: u32, n: int
         if m != p {
             if g0.ng[m].a <= pn < g0.ng[m].pos {
                 let l = buf[m].left as int;
-                lemma_nested(buf, g0, root, l, n);
+                lemma_nested(buf, g0, root, -1, l, n);
             }
             if g0.ng[m].pos < pn < g0.ng[m].b {
                 let r = buf[m].right as int;
-                lemma_nested(buf, g0, root, r, n);
+                lemma_nested(buf, g0, root, -1, r, n);
             }
         }
     }
@@ -1055,6 +1056,97 @@ pub open spec fn wf<K: Ord, V>(buf: Buf<K, V>, g: G, root: u32, unused: Seq<u32>
 
 
 // summary of the state after the physical unlink (and fix-up) of slot d, relative to the state sm before it
+
+// ghost relation between the state before the unlink of d (position qd) and the state after unlink + fix-up,
+// for every surviving slot: positions close up, and the outer boundary on the far side of qd does not move
+pub open spec fn au_bounds(g: G, g0: G, d: int) -> bool {
+    let qd = g0.ng[d].pos;
+    forall|m: int| 0 <= m < g0.ng.len() && m != d && 0 <= g0.ng[m].pos < g0.ord.len() && g0.ord[g0.ng[m].pos] as int == m ==> {
+        &&& (#[trigger] g.ng[m]).pos == sh(g0.ng[m].pos, qd)
+        &&& (g0.ng[m].a <= qd < g0.ng[m].pos ==> g.ng[m].a == g0.ng[m].a)
+        &&& (g0.ng[m].pos < qd < g0.ng[m].b ==> g.ng[m].b == g0.ng[m].b - 1)
+    }
+}
+
+pub proof fn lemma_au_shift(g0: G, d: int)
+    requires 0 <= d < g0.ng.len(),
+    ensures au_bounds(removed_g(g0, d), g0, d),
+{
+}
+
+pub proof fn lemma_au_bh(g1: G, gr: G, g0: G, d: int, c: int, bh: int)
+    requires au_bounds(gr, g0, d), 0 <= c < gr.ng.len(), g1 == (G { ord: gr.ord, ng: gr.ng.update(c, NG { bh: bh, ..gr.ng[c] }) }), gr.ng.len() == g0.ng.len(),
+    ensures au_bounds(g1, g0, d),
+{
+}
+
+// splice branch: removal shift, then a fix-up with reference node c (d's only child)
+pub proof fn lemma_au_splice<K: Ord, V>(b0: Buf<K, V>, g0: G, r0: u32, d: int, g1: G, g4: G)
+    requires
+        sinv_skip(b0, g0, r0, g0.ng[d].pos), in_tree(b0, g0, d),
+        (b0[d].left == EMPTY_REF) != (b0[d].right == EMPTY_REF),
+        au_bounds(g1, g0, d), g1.ng.len() == g0.ng.len(),
+        forall|m: int| 0 <= m < g0.ng.len() && m != d ==> (#[trigger] g1.ng[m]).a == sh(g0.ng[m].a, g0.ng[d].pos) && g1.ng[m].b == sh(g0.ng[m].b, g0.ng[d].pos),
+        g1.ord == g0.ord.remove(g0.ng[d].pos),
+        same_pos(g4, g1),
+        keeps_bounds(g4, g1, g1.ng[(if b0[d].left != EMPTY_REF { b0[d].left } else { b0[d].right }) as int].pos),
+    ensures
+        au_bounds(g4, g0, d),
+{
+    let qd = g0.ng[d].pos;
+    let c = (if b0[d].left != EMPTY_REF { b0[d].left } else { b0[d].right }) as int;
+    reveal(sinv_skip);
+    assert(node_ok(b0, g0, r0, d));
+    assert(node_ok(b0, g0, r0, c));
+    assert(g0.ord[qd] as int == d);
+    assert forall|m: int| 0 <= m < g0.ng.len() && m != d && 0 <= g0.ng[m].pos < g0.ord.len() && g0.ord[g0.ng[m].pos] as int == m implies {
+        &&& (#[trigger] g4.ng[m]).pos == sh(g0.ng[m].pos, qd)
+        &&& (g0.ng[m].a <= qd < g0.ng[m].pos ==> g4.ng[m].a == g0.ng[m].a)
+        &&& (g0.ng[m].pos < qd < g0.ng[m].b ==> g4.ng[m].b == g0.ng[m].b - 1)
+    } by {
+        assert(in_tree(b0, g0, m));
+        assert(node_ok(b0, g0, r0, m));
+        assert(g1.ng[m].pos == sh(g0.ng[m].pos, qd));
+        // m is still in the order after the removal, at its shifted position
+        let pm1 = g1.ng[m].pos;
+        if g0.ng[m].pos < qd { assert(g1.ord[pm1] == g0.ord[g0.ng[m].pos]); } else { assert(g1.ord[pm1] == g0.ord[pm1 + 1]); }
+        if g0.ng[m].a <= qd < g0.ng[m].b {
+            lemma_nested(b0, g0, r0, qd, m, d);
+            lemma_nested(b0, g0, r0, qd, d, c);
+            if g0.ng[m].a <= qd < g0.ng[m].pos { lemma_nested(b0, g0, r0, qd, b0[m].left as int, d); }
+            if g0.ng[m].pos < qd < g0.ng[m].b { lemma_nested(b0, g0, r0, qd, b0[m].right as int, d); }
+        }
+    }
+}
+
+// sentinel branch: slot 0 takes d's position (no shift), fix-up with reference position qd, then slot 0 is removed
+pub proof fn lemma_au_nil(g0: G, d: int, g1: G, g2: G, g4: G)
+    requires
+        0 <= d < g0.ng.len(), d != 0, g0.ng.len() > 0,
+        !(0 <= g0.ng[0].pos < g0.ord.len() && g0.ord[g0.ng[0].pos] == 0u32),
+        0 <= g0.ng[d].pos < g0.ord.len(), g0.ord[g0.ng[d].pos] as int == d,
+        g1 == (G { ord: g0.ord.update(g0.ng[d].pos, 0u32),
+                   ng: g0.ng.update(0, NG { pos: g0.ng[d].pos, a: g0.ng[d].a, b: g0.ng[d].b, bh: g0.ng[d].bh }).update(d, NG { pos: -1, ..g0.ng[d] }) }),
+        same_pos(g2, g1), keeps_bounds(g2, g1, g0.ng[d].pos),
+        g4 == removed_g(g2, 0),
+    ensures
+        au_bounds(g4, g0, d),
+{
+    let qd = g0.ng[d].pos;
+    assert(g2.ng[0].pos == qd);
+    assert forall|m: int| 0 <= m < g0.ng.len() && m != d && 0 <= g0.ng[m].pos < g0.ord.len() && g0.ord[g0.ng[m].pos] as int == m implies {
+        &&& (#[trigger] g4.ng[m]).pos == sh(g0.ng[m].pos, qd)
+        &&& (g0.ng[m].a <= qd < g0.ng[m].pos ==> g4.ng[m].a == g0.ng[m].a)
+        &&& (g0.ng[m].pos < qd < g0.ng[m].b ==> g4.ng[m].b == g0.ng[m].b - 1)
+    } by {
+        assert(m != 0);
+        assert(g1.ng[m] == g0.ng[m]);
+        assert(g0.ng[m].pos != qd) by { if g0.ng[m].pos == qd { assert(g0.ord[qd] as int == m); } }
+        assert(g1.ord[g1.ng[m].pos] == g0.ord[g0.ng[m].pos]);
+        assert(g2.ng[m].pos == g1.ng[m].pos);
+    }
+}
+
 pub open spec fn after_unlink<K: Ord, V>(b: Buf<K, V>, g: G, r: u32, b0: Buf<K, V>, g0: G, d: int) -> bool {
     &&& sinv(b, g, r) && cinv(b, g, -1)
     &&& !in_tree(b, g, 0)
@@ -1062,6 +1154,7 @@ pub open spec fn after_unlink<K: Ord, V>(b: Buf<K, V>, g: G, r: u32, b0: Buf<K, 
     &&& g.ord == g0.ord.remove(g0.ng[d].pos)
     &&& b.len() == b0.len()
     &&& forall|i: int| 0 < i < b.len() ==> (#[trigger] b[i]).entity == b0[i].entity
+    &&& au_bounds(g, g0, d)
 }
 
 
@@ -1069,7 +1162,7 @@ pub open spec fn after_unlink<K: Ord, V>(b: Buf<K, V>, g: G, r: u32, b0: Buf<K, 
 // changed and d == index, or d is the in-order successor whose entity was copied into slot index
 pub open spec fn move_rel<K, V>(bm: Buf<K, V>, b0: Buf<K, V>, g0: G, index: int, d: int) -> bool {
     ||| (d == index && bm == b0)
-    ||| (g0.ng[d].pos == g0.ng[index].pos + 1 && d != index && bm =~= b0.update(index, Node { entity: b0[d].entity, ..b0[index] }))
+    ||| (g0.ng[d].pos == g0.ng[index].pos + 1 && d != index && b0[index].right != EMPTY_REF && bm =~= b0.update(index, Node { entity: b0[d].entity, ..b0[index] }))
 }
 
 pub proof fn lemma_delete_finish<K: Ord, V>(b0: Buf<K, V>, g0: G, r0: u32, u0: Seq<u32>, index: int, bm: Buf<K, V>, d: int,
@@ -1080,6 +1173,14 @@ pub proof fn lemma_delete_finish<K: Ord, V>(b0: Buf<K, V>, g0: G, r0: u32, u0: S
         after_unlink(b4, g4, r4, bm, g0, d),
         u1 == u0.push(d as u32),
     ensures
+        ({
+            let p = b0[index].parent;
+            p != EMPTY_REF ==> {
+                &&& in_tree(b4, g4, p as int)
+                &&& b0[p as int].left as int == index ==> g4.ng[p as int].a == g0.ng[p as int].a && g4.ng[p as int].pos == g0.ng[p as int].pos - 1
+                &&& b0[p as int].left as int != index ==> g4.ng[p as int].b == g0.ng[p as int].b - 1 && g4.ng[p as int].pos == g0.ng[p as int].pos
+            }
+        }),
         wf(b4, g4, r4, u1),
         ents(b4, g4) =~= ents(b0, g0).remove(g0.ng[index].pos),
         b4.len() == b0.len(),
@@ -1091,6 +1192,14 @@ pub proof fn lemma_delete_finish<K: Ord, V>(b0: Buf<K, V>, g0: G, r0: u32, u0: S
     assert(g0.ord[q] as int == index);
     assert(g0.ord[qd] as int == d);
     assert(d != 0 && 0 < d < b0.len());
+    if b0[index].parent != EMPTY_REF {
+        reveal(sinv);
+        let p = b0[index].parent as int;
+        assert(node_ok(b0, g0, r0, index));
+        assert(node_ok(b0, g0, r0, p));
+        assert(g0.ord[g0.ng[p].pos] as int == p);
+        assert(p != d);
+    }
     assert forall|i: int| (#[trigger] in_tree(bm, g0, i)) == in_tree(b0, g0, i) by { }
     // pool partition
     assert forall|k: int| 0 <= k < u1.len() implies 1 <= (#[trigger] u1[k]) as int && (u1[k] as int) < b4.len() && !in_tree(b4, g4, u1[k] as int) by {
@@ -1395,24 +1504,24 @@ pub proof fn lemma_insert_pool<K: Ord, V>(b0: Buf<K, V>, g0: G, r0: u32, u0: Seq
 
 // ranges form a laminar family: a node m positioned inside i's range has its whole range inside i's range,
 // and unless m is i itself its parent is positioned inside i's range too
-pub proof fn lemma_nested<K: Ord, V>(buf: Buf<K, V>, g: G, root: u32, i: int, m: int)
+pub proof fn lemma_nested<K: Ord, V>(buf: Buf<K, V>, g: G, root: u32, skip: int, i: int, m: int)
     requires
-        sinv(buf, g, root), in_tree(buf, g, i), in_tree(buf, g, m),
+        sinv_skip(buf, g, root, skip), in_tree(buf, g, i), in_tree(buf, g, m),
         g.ng[i].a <= g.ng[m].pos < g.ng[i].b,
     ensures
         g.ng[i].a <= g.ng[m].a && g.ng[m].b <= g.ng[i].b,
         m != i ==> buf[m].parent != EMPTY_REF && g.ng[i].a <= g.ng[buf[m].parent as int].pos < g.ng[i].b,
     decreases g.ng[i].b - g.ng[i].a,
 {
-    reveal(sinv);
+    reveal(sinv_skip);
     assert(node_ok(buf, g, root, i));
     assert(node_ok(buf, g, root, m));
     if m != i {
         assert(g.ord[g.ng[m].pos] as int == m && g.ord[g.ng[i].pos] as int == i);
         if g.ng[m].pos < g.ng[i].pos {
-            lemma_nested(buf, g, root, buf[i].left as int, m);
+            lemma_nested(buf, g, root, skip, buf[i].left as int, m);
         } else {
-            lemma_nested(buf, g, root, buf[i].right as int, m);
+            lemma_nested(buf, g, root, skip, buf[i].right as int, m);
         }
     }
 }
@@ -2786,6 +2895,14 @@ impl<K: Copy + Ord + Default, V: Clone + Default> MapTree<K, V> {
             wf(old(self).store.buffer@, old(self).g@, old(self).root, old(self).store.unused@),
             in_tree(old(self).store.buffer@, old(self).g@, index as int),
         ensures
+            ({
+                let b0 = old(self).store.buffer@; let g0 = old(self).g@; let p = b0[index as int].parent;
+                p != EMPTY_REF ==> {
+                    &&& in_tree(final(self).store.buffer@, final(self).g@, p as int)
+                    &&& b0[p as int].left == index ==> final(self).g@.ng[p as int].a == g0.ng[p as int].a && final(self).g@.ng[p as int].pos == g0.ng[p as int].pos - 1
+                    &&& b0[p as int].left != index ==> final(self).g@.ng[p as int].b == g0.ng[p as int].b - 1 && final(self).g@.ng[p as int].pos == g0.ng[p as int].pos
+                }
+            }),
             wf(final(self).store.buffer@, final(self).g@, final(self).root, final(self).store.unused@),
             ents(final(self).store.buffer@, final(self).g@) =~= ents(old(self).store.buffer@, old(self).g@).remove(old(self).g@.ng[index as int].pos),
             final(self).store.buffer@.len() == old(self).store.buffer@.len(),
@@ -2835,16 +2952,26 @@ impl<K: Copy + Ord + Default, V: Clone + Default> MapTree<K, V> {
             proof { self.g@ = lemma_splice(sm.0, sm.1, sm.2, d, self.store.buffer@, self.root); }
             let ghost s3 = (self.store.buffer@, self.g@, self.root);
             self.fix_red_black_properties_after_delete(nd_left);
-            proof { lemma_same_ord_membership(self.store.buffer@, self.g@, self.root, s3.0, s3.1, s3.2); assert(after_unlink(self.store.buffer@, self.g@, self.root, sm.0, sm.1, d)); }
+            proof {
+                lemma_same_ord_membership(self.store.buffer@, self.g@, self.root, s3.0, s3.1, s3.2);
+                lemma_au_shift(sm.1, d); lemma_au_bh(s3.1, removed_g(sm.1, d), sm.1, d, nd_left as int, sm.1.ng[d].bh);
+                lemma_au_splice(sm.0, sm.1, sm.2, d, s3.1, self.g@);
+                assert(after_unlink(self.store.buffer@, self.g@, self.root, sm.0, sm.1, d));
+            }
         } else if nd_right != EMPTY_REF {
             self.replace_parents_child(nd_parent, delete_index, nd_right);
             proof { self.g@ = lemma_splice(sm.0, sm.1, sm.2, d, self.store.buffer@, self.root); }
             let ghost s3 = (self.store.buffer@, self.g@, self.root);
             self.fix_red_black_properties_after_delete(nd_right);
-            proof { lemma_same_ord_membership(self.store.buffer@, self.g@, self.root, s3.0, s3.1, s3.2); assert(after_unlink(self.store.buffer@, self.g@, self.root, sm.0, sm.1, d)); }
+            proof {
+                lemma_same_ord_membership(self.store.buffer@, self.g@, self.root, s3.0, s3.1, s3.2);
+                lemma_au_shift(sm.1, d); lemma_au_bh(s3.1, removed_g(sm.1, d), sm.1, d, nd_right as int, sm.1.ng[d].bh);
+                lemma_au_splice(sm.0, sm.1, sm.2, d, s3.1, self.g@);
+                assert(after_unlink(self.store.buffer@, self.g@, self.root, sm.0, sm.1, d));
+            }
         } else if nd_parent == EMPTY_REF {
             self.root = EMPTY_REF;
-            proof { self.g@ = lemma_remove_root_leaf(sm.0, sm.1, sm.2, d); assert(after_unlink(self.store.buffer@, self.g@, self.root, sm.0, sm.1, d)); }
+            proof { self.g@ = lemma_remove_root_leaf(sm.0, sm.1, sm.2, d); lemma_au_shift(sm.1, d); assert(after_unlink(self.store.buffer@, self.g@, self.root, sm.0, sm.1, d)); }
         } else {
             // Node has no children -->
             // * node is red --> just remove it
@@ -2865,12 +2992,13 @@ impl<K: Copy + Ord + Default, V: Clone + Default> MapTree<K, V> {
                 self.fix_parents_nil_child();
                 proof {
                     self.g@ = lemma_remove_red_leaf(s2.0, s2.1, s2.2, 0, self.store.buffer@);
+                    lemma_au_nil(sm.1, d, s3.1, s2.1, self.g@);
                     assert(self.g@.ord =~= sm.1.ord.remove(sm.1.ng[d].pos));
                     assert(after_unlink(self.store.buffer@, self.g@, self.root, sm.0, sm.1, d));
                 }
             } else {
                 self.remove_parents_child(nd_parent, delete_index);
-                proof { self.g@ = lemma_remove_red_leaf(sm.0, sm.1, sm.2, d, self.store.buffer@); assert(after_unlink(self.store.buffer@, self.g@, self.root, sm.0, sm.1, d)); }
+                proof { self.g@ = lemma_remove_red_leaf(sm.0, sm.1, sm.2, d, self.store.buffer@); lemma_au_shift(sm.1, d); assert(after_unlink(self.store.buffer@, self.g@, self.root, sm.0, sm.1, d)); }
             }
         }
 
